@@ -267,6 +267,67 @@ func genRecursion(emit func(Case)) {
 	}
 }
 
+// genBackends: every director type x member shapes (0..3 members, quorum 0/50/100 %, unhealthy-looking or missing
+// properties) x the place where the backend is selected x the state vcl_recv returns; plus plain backends with
+// odd properties and no backend at all.
+func genBackends(emit func(Case)) {
+	backends := "backend b1 { .host = \"example.com\"; .port = \"80\"; }\nbackend b2 { .host = \"example.org\"; .port = \"80\"; }\nbackend b3 { .host = \"example.net\"; }\n"
+	members := []string{
+		"",
+		"{ .backend = b1; .weight = 1; }",
+		"{ .backend = b1; .weight = 1; } { .backend = b2; .weight = 1; }",
+		"{ .backend = b1; .weight = 0; } { .backend = b2; .weight = 3; } { .backend = b3; .weight = 1; }",
+		"{ .backend = b1; .id = \"one\"; } { .backend = b2; .id = \"two\"; }",
+		"{ .backend = b1; }",
+	}
+	props := []string{"", ".quorum = 0%;", ".quorum = 50%;", ".quorum = 100%;", ".retries = 0;", ".retries = 5;", ".key = object; .seed = 1; .vnodes_per_node = 1;", ".key = client;"}
+	selects := []struct{ name, recv, later string }{
+		{"recv", "set req.backend = d;", ""},
+		{"miss", "", "sub vcl_miss { set req.backend = d; return(fetch); }\nsub vcl_pass { set req.backend = d; return(pass); }\n"},
+		{"recv-conditional", "if (req.url ~ \"x\") { set req.backend = d; }", ""},
+		{"recv-read", "set req.backend = d; set req.http.B = req.backend; set req.http.H = backend.b1.healthy;", ""},
+	}
+	reqs := []Request{{"GET", "http://example.com/a", nil}, {"GET", "http://example.com/x", nil}}
+	for _, typ := range []string{"random", "hash", "client", "fallback", "chash", "shield", "unknown"} {
+		for mi, m := range members {
+			for pi, pr := range props {
+				// full product for the member shape x property; selection place and return state within 1 deviation
+				for si, sel := range selects {
+					for ri, ret := range []string{"lookup", "pass", "error", "restart"} {
+						if (si > 0 && ri > 0) || (mi > 2 && pi > 3 && (si > 0 || ri > 1)) {
+							continue
+						}
+						retStmt := "return(" + ret + ");"
+						if ret == "restart" {
+							retStmt = "if (req.restarts == 0) { restart; } return(pass);"
+						}
+						main := fmt.Sprintf("%sdirector d %s { %s %s }\nsub vcl_recv { %s %s }\n%s", backends, typ, pr, m, sel.recv, retStmt, sel.later)
+						emit(Case{Kind: "serve", Main: main, Requests: reqs, Label: "backend-selection " + typ + " " + sel.name + " return " + ret})
+					}
+				}
+			}
+		}
+	}
+	// plain backends with odd properties, and a program without any backend
+	for _, b := range []string{
+		"backend b1 { }", "backend b1 { .host = \"\"; }", "backend b1 { .port = \"80\"; }", "backend b1 { .host = \"example.com\"; .port = \"notaport\"; }",
+		"backend b1 { .host = \"example.com\"; .port = \"99999\"; }", "backend b1 { .host = \"example.com\"; .ssl = true; .ssl_sni_hostname = \"\"; }",
+		"backend b1 { .host = \"example.com\"; .connect_timeout = 0s; .first_byte_timeout = -1s; .between_bytes_timeout = 9999999s; }",
+		"backend b1 { .host = \"example.com\"; .probe = { .request = \"GET / HTTP/1.1\"; .threshold = 0; .window = 0; .initial = 9; } }",
+		"backend b1 { .host = \"example.com\"; .always_use_host_header = true; .host_header = \"\"; }",
+		"",
+	} {
+		for _, ret := range []string{"lookup", "pass"} {
+			for _, set := range []string{"", "set req.backend = b1;"} {
+				if b == "" && set != "" {
+					continue
+				}
+				emit(Case{Kind: "serve", Main: b + "\nsub vcl_recv { " + set + " return(" + ret + "); }\n", Requests: reqs[:1], Label: "backend-properties return " + ret})
+			}
+		}
+	}
+}
+
 func genLifecycle(tier string, emit func(Case)) {
 	vars, err := tables.Variables()
 	if err != nil {
@@ -338,6 +399,7 @@ func gen08(tier string, emit func(Case)) {
 	genFunctions(tier, emit)
 	genStatements(emit)
 	genRecursion(emit)
+	genBackends(emit)
 	genLifecycle(tier, emit)
 	genTester(emit)
 }
@@ -456,7 +518,7 @@ func init() {
 	engine.Register(engine.Spec[Case]{
 		ID:    "C08",
 		Level: "exploration",
-		Rule: "crash/hang oracle over (1) the complete product assignment operator (15) x target type (7) x operand type (7) x boundary operands (0, +-1, INT64 min/max, 2^31, 63/64/65, NaN/inf, FLOAT_MAX/MIN, empty and not-set strings, epoch boundary times, ...) x {literal, variable} x 3 initial values, plus header and header-sub-field targets; (2) every built-in function of builtin.yml x every declared signature x boundary arguments per parameter type (full product up to 3 parameters, one deviation beyond), as assignment, in a condition and in a concatenation; (3) every statement derivation within 1 deviation in all 9 scopes; recursive / mutually recursive / functional-recursive subroutines, unconditional restart and return(restart) in every scope, error in error, goto loops, all self/mutual/missing include shapes at root and statement level through ServeHTTP; (4) the full lifecycle through ServeHTTP with a program that reads every readable predefined variable of every scope, for 5 methods x 4 paths x 3 queries x 5 header sets x 1-3 requests per instance; (5) the test runner on 7 test files. Every case runs under a fuel budget of 2e7 ticks. non-trivial = every case; distinct = distinct program/requests",
+		Rule: "crash/hang oracle over (1) the complete product assignment operator (15) x target type (7) x operand type (7) x boundary operands (0, +-1, INT64 min/max, 2^31, 63/64/65, NaN/inf, FLOAT_MAX/MIN, empty and not-set strings, epoch boundary times, ...) x {literal, variable} x 3 initial values, plus header and header-sub-field targets; (2) every built-in function of builtin.yml x every declared signature x boundary arguments per parameter type (full product up to 3 parameters, one deviation beyond), as assignment, in a condition and in a concatenation; (3) every statement derivation within 1 deviation in all 9 scopes; recursive / mutually recursive / functional-recursive subroutines, unconditional restart and return(restart) in every scope, error in error, goto loops, all self/mutual/missing include shapes at root and statement level through ServeHTTP; 7 director types x 6 member shapes x 8 property sets x where the backend is selected x the state vcl_recv returns, and backends with odd properties or none; (4) the full lifecycle through ServeHTTP with a program that reads every readable predefined variable of every scope, for 5 methods x 4 paths x 3 queries x 5 header sets x 1-3 requests per instance; (5) the test runner on 7 test files. Every case runs under a fuel budget of 2e7 ticks. non-trivial = every case; distinct = distinct program/requests",
 		Gen:  gen08,
 		Key: func(c Case) string {
 			var b strings.Builder
